@@ -1048,7 +1048,8 @@ Verdict check_g2_inner(const J& r);
 // Region, decided from the parameters alone: kind G, four-argument constructor, and the two differences disagree by > 0.1 %.
 Verdict check_g2(const J& r) {
   Verdict v = check_g2_inner(r);
-  if (v.failed() && kn("C15-G-alpha2-k2-rounded")) {
+  // (a NaN or finite value where the integral diverges is the repaired defect "G() was NaN ... alphap2 = 0", never excused)
+  if (v.failed() && v.msg.find("reference diverges") == std::string::npos && kn("C15-G-alpha2-k2-rounded")) {
     ParRec p; ref::ell::Par rp;
     if (get_par(r, p, rp) && r.geti("kind") == 4 && p.four &&
         fabsl(((L)p.a2 - (L)p.k2) - ((L)p.kp2 - (L)p.ap2)) > 1e-3L * fabsl((L)p.kp2 - (L)p.ap2)) {
